@@ -616,7 +616,26 @@ func vfC14FatalOnEstablished(t *testing.T, res *vfResult, cfgName, victim string
 	p.S.StartPump()
 	v, peer := vfSideOf(p, victim)
 	before := len(n.Emissions(v.Name))
-	n.Deliver(string(v.EP.addr), vfLegacyRecord(23, 0xfefd, 0, 77, nil, -1, []byte("unprotected")), peer.EP.addr)
+	// the peer's (correctly protected) record carries an alert whose body does not decode: the victim answers with a
+	// fatal decode_error. (An unprotected record would be discarded without effect on a protected association.)
+	tk, terr := vfNewToolkit(p)
+	if terr != nil {
+		res.Count("toolkit_unavailable", 1)
+		p.Close()
+		synctest.Wait()
+
+		return
+	}
+	ep, first := tk.reserve(peer.Name, 4)
+	rec, serr := tk.Seal(peer.Name, ep, first, 21, []byte{2, 40, 0}, 0x5151)
+	if serr != nil {
+		res.Count("toolkit_unavailable", 1)
+		p.Close()
+		synctest.Wait()
+
+		return
+	}
+	n.Deliver(string(v.EP.addr), rec, peer.EP.addr)
 	time.Sleep(100 * time.Millisecond)
 	synctest.Wait()
 	fatal := false
@@ -718,6 +737,7 @@ func TestVF_C14(t *testing.T) {
 		}
 	}
 	vfBubbles(t, len(fes), func(t *testing.T, i int) { vfC14FatalOnEstablished(t, res, fes[i].cfg, fes[i].victim, fes[i].dual) })
+	res.Floor("fatal_alerts_provoked_on_established_sessions", 6)
 	res.Floor("abbreviated_agreeing", 20)
 	res.Floor("fallback_full", 5)
 	res.Floor("second_connections_judged", int64(len(cases)*8/10))
